@@ -2,6 +2,7 @@
 //! {trusted, otherca}, with keys generated afresh each run (two independent runs of the bundled generator give
 //! CA A = the configured one and CA B = "another CA"; the self-signed certificate is made with rcgen).
 //!   tls <client identity> <server identity>
+//!   tls noexp noexp      both sides use a set made by the bundled generator with `--no-expiry`
 //! Implementation line: `accept` (connected and a publisher registration was acknowledged) or `refuse`.
 use crate::e2e::*;
 use crate::util::*;
@@ -68,13 +69,16 @@ async fn attempt(addr: SocketAddr, a: &Certs, b: &Certs, selfsigned: &(PathBuf, 
             }
             _ => {
                 let (cert, key) = match client_id {
-                    "trusted" => (a.client("localhost.der"), a.client("localhost.key.der")),
+                    "trusted" | "wrongca" => (a.client("localhost.der"), a.client("localhost.key.der")),
                     "otherca" => (b.client("localhost.der"), b.client("localhost.key.der")),
                     "bundle" => (bundle.clone(), a.client("localhost.key.der")),
                     _ => selfsigned.clone(),
                 };
-                // the client is configured with CA A, whatever the server turns out to present
-                let client = client_with(addr, &a.client("ca.der"), &cert, &key, BackoffStrategy::constant().with_max_attempts(0)).await?;
+                // the client is configured with CA A, whatever the server turns out to present ("wrongca": the same
+                // client certificate, but configured with CA B - it must not talk to a server certified by A, however
+                // many clients of this process have done so before)
+                let ca = if client_id == "wrongca" { b.client("ca.der") } else { a.client("ca.der") };
+                let client = client_with(addr, &ca, &cert, &key, BackoffStrategy::constant().with_max_attempts(0)).await?;
                 let mut p = client.publisher(topic).with_encoder(StringCodec).open().await?;
                 p.send("hello".to_string()).await?;
                 Ok("accept".to_string())
@@ -101,24 +105,32 @@ pub fn run(cfg: &Cfg) {
         (start_server(&a).expect("server A"),
          start_server_with(&a.server("ca.der"), &b.server("localhost.der"), &b.server("localhost.key.der")).expect("server B"))
     });
+    // every flavour of set the bundled generator can produce must work in both directions: `--no-expiry`
+    let ne = Certs::generate_with(&scratch_dir("tlsN"), true).expect("certificates (no expiry)");
+    let addr_n = rt.block_on(async { start_server(&ne).expect("server N") });
     let mut cases: Vec<String> = vec![];
     if let Some(lines) = cfg.replay_lines() { cases = lines; } else {
+        cases.push("tls noexp noexp".into());
         for s in ["trusted", "otherca"] { for c in ["trusted", "otherca", "selfsigned", "none"] { cases.push(format!("tls {c} {s}")); } }
         // a trusted client whose identity file also carries another CA's certificate: the trust anchors stay the
         // configured ones
         for s in ["trusted", "otherca"] { cases.push(format!("tls bundle {s}")); }
+        // after trusted clients have connected: the same client certificate configured with the other CA
+        cases.push("tls wrongca trusted".into());
+        cases.push("tls trusted trusted".into());
+        cases.push("tls wrongca trusted".into());
     }
     for (i, c) in cases.iter().enumerate() {
         let t: Vec<&str> = c.split(' ').collect();
-        let addr = if t[2] == "trusted" { addr_t } else { addr_o };
+        let addr = if t[2] == "trusted" { addr_t } else if t[2] == "noexp" { addr_n } else { addr_o };
         let topic = format!("/verif/tls{i}");
-        let res = rt.block_on(attempt(addr, &a, &b, &ss, &bun, t[1], &topic));
-        let want = if (t[1] == "trusted" || t[1] == "bundle") && t[2] == "trusted" { "accept" } else { "refuse" };
+        let res = if t[1] == "noexp" { rt.block_on(attempt(addr, &ne, &b, &ss, &bun, "trusted", &topic)) } else { rt.block_on(attempt(addr, &a, &b, &ss, &bun, t[1], &topic)) };
+        let want = if (t[1] == "trusted" || t[1] == "bundle" || t[1] == "noexp") && (t[2] == "trusted" || t[2] == "noexp") && (t[1] == "noexp") == (t[2] == "noexp") { "accept" } else { "refuse" };
         let mon = if res == want { Ok(()) } else { Err(format!("C15: client identity {} against server identity {}: {res}, must {want}", t[1], t[2])) };
         out.stat(&format!("client_{}", t[1]));
         out.case(c, &res, mon);
     }
-    for d in [&a.dir, &b.dir] { let _ = std::fs::remove_dir_all(d); }
+    for d in [&a.dir, &b.dir, &ne.dir] { let _ = std::fs::remove_dir_all(d); }
     let _ = std::fs::remove_dir_all(scratch_dir("tlsS"));
     out.finish();
 }
